@@ -134,6 +134,9 @@ class Builtins:
             if fi is not None and isinstance(recv, VVal) and not self.is_abstract(fi):
                 # the method as defined by the nearest repository ancestor (its contract if it has one, else its body)
                 return self.call_func(VFunc(fi.node, {}, fi.module, fi.qualname, self_sv=recv, cls=fi.cls), args, kwargs, st, node)
+            if meth == '__setattr__' and isinstance(recv, VVal) and len(args) == 2:
+                # object.__setattr__ through super(): the attribute is stored
+                return self.do_setattr(recv, args[0], args[1], st, node)
             # super().__init__() / __init_subclass__(...) of classes outside the repository: no observable effect here
             return [(self.none(), st)]
         h = getattr(self, 'bi_' + name.replace('.', '_'), None)
@@ -889,7 +892,17 @@ class Builtins:
             return [(VSetB(th.s_hasA(t)), st)]
         if kind == 'seq' and meth == 'copy':
             return self.container_ctor('list', [recv], st, node)
-        if meth in ('append', 'add', 'extend', 'update', 'pop', 'remove', 'discard', 'setdefault') and not recv.fresh:
+        if kind == 'set' and meth == 'add' and not recv.fresh and self.is_mutable_root(recv, st) and len(args) == 1 and not self.spec_mode:
+            # in-place growth of a set owned by a receiver the function may modify (self.__pane_set__): ghost store read by shas()
+            gk = f'$sets:{t}'
+            prev = st.env.get(gk)
+            prev_has = prev.has if isinstance(prev, VSetB) else th.s_hasA(t)
+            k = self.toVal(args[0], st)
+            st.env[gk] = VSetB(z3.Store(prev_has, k, True))
+            self.frame_ok(st, f'{self.src(node)}')
+            return need_attr([(T, self.none())]) if kind != 'set' else self.hash_guard(k, self.none(), st, origin, args[0])
+        if meth in ('append', 'add', 'extend', 'update', 'pop', 'remove', 'discard', 'setdefault') and not recv.fresh \
+                and not self.is_mutable_root(recv, st):
             self.frame_violation(st, f'{self.src(node)}', node)
         if meth == 'print_error' and not self.spec_mode:
             # virtual call through the ErrorNode interface: total, PROVIDED a DuplicateKeyError is never rendered inside a sum
@@ -901,6 +914,15 @@ class Builtins:
                                  path_kind='call'))
         if meth == 'keys' and kind is None:
             raise OutOfSubset('keys() on value of unknown kind: add a shape hint', node)
+        if len(args) == 1 and isinstance(args[0], VGen) and not kwargs:
+            # a generator handed to a method of an opaque value (", ".join(f(x) for x in xs)): the method sees its items as a list
+            outs_ = []
+            for r_, s2_ in self.materialize(args[0], 'list', st, node):
+                if isinstance(r_, Raised):
+                    outs_.append((r_, s2_))
+                else:
+                    outs_.extend(self.call_valmeth(meth, recv, [r_], kwargs, s2_, node))
+            return outs_
         spec = self.VAL_METHODS.get(meth)
         a = [t] + [self.toVal(x, st) for x in args] + [self.toVal(kwargs[k], st) for k in sorted(kwargs)]
         suffix = ('_kw_' + '_'.join(sorted(kwargs))) if kwargs else ''
@@ -1138,6 +1160,8 @@ class Builtins:
             return self.bi_getattr(args, kwargs, st, node)
         if name == 'hash_of':
             return [(VVal(th.fn('hash_of', th.Val, th.Val)(V(0)), kind='int'), st)]
+        if name == 'deepcopy_of':
+            return [(VVal(th.fn('deepcopy_of', th.Val, th.Val)(V(0))), st)]
         if name == 'closure_of':
             return [(VVal(th.fn('closure_code', th.Val, th.Val)(V(0)), kind='str'), st)]
         if name == 'closure_free':
@@ -1229,6 +1253,8 @@ class Builtins:
         if name == 'shas':
             s_ = args[0]
             has = s_.has if isinstance(s_, VSetB) else th.s_hasA(V(0))
+            if not isinstance(s_, VSetB) and isinstance(st.env.get(f'$sets:{V(0)}'), VSetB):
+                has = st.env[f'$sets:{V(0)}'].has      # the set as grown in place by the function body
             return [(VBool(z3.Select(has, V(1))), st)]
         if name in ('as_map', 'as_seq', 'as_set'):
             return [(VVal(V(0), kind={'as_map': 'map', 'as_seq': 'seq', 'as_set': 'set'}[name], fresh=getattr(args[0], 'fresh', False)), st)]
